@@ -87,7 +87,14 @@ impl ResponseOutputFormat {
                 };
 
                 if !errors.is_empty() {
-                    response["error"] = json![{"csv": json![errors]}];
+                    // report the mapping failures without replacing an error that is already
+                    // stored in the response, such as the reason a search failed
+                    let key = if response.get("error").is_some() {
+                        "csv_error"
+                    } else {
+                        "error"
+                    };
+                    response[key] = json![{"csv": json![errors]}];
                 }
                 Ok(row)
             }
